@@ -25,6 +25,9 @@ pub const PRESETS: &[(&str, &str)] = &[
     ("ai_tab", "before_edit"),
     ("github-copilot", "before_edit"),
     ("cursor", "beforeSubmitPrompt"),
+    // VS Code native hooks of Copilot (transcript under .../GitHub.copilot-chat/transcripts/)
+    ("github-copilot", "PostToolUse"),
+    ("github-copilot", "PreToolUse"),
     ("cursor", "afterFileEdit"),
     ("opencode", "PreToolUse"),
 ];
@@ -250,7 +253,7 @@ fn template(preset: &str, event: &str, cwd: &Path, files: &[String], transcript:
     let c = cwd.to_string_lossy().into_owned();
     let t = transcript.to_string_lossy().into_owned();
     let f0 = files.first().cloned().unwrap_or_default();
-    let abs0 = if Path::new(&f0).is_absolute() { f0.clone() } else { cwd.join(&f0).to_string_lossy().into_owned() };
+    let abs0 = if Path::new(&f0).is_absolute() || f0.starts_with("file://") { f0.clone() } else { cwd.join(&f0).to_string_lossy().into_owned() };
     json!({
         "type": if event.to_lowercase().contains("pre") || event.contains("before") { "human" } else { "ai_agent" },
         "hook_event_name": event, "hookEventName": event,
@@ -447,7 +450,15 @@ fn run_inner(case: &Case, reverse: bool, recorded: &mut BTreeSet<(usize, String)
     if reverse {
         files.reverse();
     }
-    let tpath = write_transcript(&sb, case.transcript);
+    let mut tpath = write_transcript(&sb, case.transcript);
+    if preset == "github-copilot" && event.ends_with("ToolUse") {
+        let d = sb.root.join("workspaceStorage/0a1b2c/GitHub.copilot-chat/transcripts");
+        let _ = std::fs::create_dir_all(&d);
+        let np = d.join("session-1.jsonl");
+        if std::fs::copy(&tpath, &np).is_ok() {
+            tpath = np;
+        }
+    }
     install_side_stores(&mut sb, case.transcript);
     let cwd = if case.cwd_inside { l.workspace.clone() } else { l.outside.clone() };
     let payload = mutate(template(preset, event, &l.workspace, &files, &tpath), &case.mutations);
